@@ -35,7 +35,9 @@ def raw32_inputs(rng, n):
 PROOFS = {'secp256k1_fe_mul_inner': ('Kernel/Field5x52.vo', 'fe_mul_inner_correct'),
           'secp256k1_fe_sqr_inner': ('Kernel/Field5x52Sqr.vo', 'fe_sqr_inner_correct')}
 # proofs over the regenerated branch-free primitives: (function, .vo, theorem)
-CT_PROOFS = [('secp256k1_scalar_reduce_512', 'Kernel/ScalarReduce512.vo', 'scalar_reduce_512_correct'),
+CT_PROOFS = [('secp256k1_fe_impl_add', 'Kernel/FieldPrims.vo', 'fe_add_correct'), ('secp256k1_fe_impl_negate_unchecked', 'Kernel/FieldPrims.vo', 'fe_negate_correct'),
+             ('secp256k1_fe_impl_half', 'Kernel/FieldPrims.vo', 'fe_half_correct'), ('secp256k1_scalar_negate', 'Kernel/FieldPrims.vo', 'scalar_negate_correct'),
+             ('secp256k1_scalar_reduce_512', 'Kernel/ScalarReduce512.vo', 'scalar_reduce_512_correct'),
              ('secp256k1_scalar_mul_512', 'Kernel/ScalarMul512.vo', 'scalar_mul_512_correct'),
              ('secp256k1_scalar_sqr_512', 'Kernel/ScalarSqr512.vo', 'scalar_sqr_512_correct'),
              ('secp256k1_fe_impl_normalize', 'Kernel/FieldNormalize.vo', 'fe_normalize_correct'),
